@@ -242,3 +242,24 @@ Lemma shard_depth_shipped_refuted_l :
   let nodes := make_dag 5984 (map CData links) in
   shard_depth_shipped nodes links = 1%Z /\ covers (dag_root 5984 (map CData links)) 1 = false /\ shard_depth nodes links = 2%Z.
 Proof. vm_compute. repeat split. Qed.
+
+(* the logarithmic-set variant used by the boolean checks computes the same list as the specification's dedup *)
+From Coq Require Import MSets.MSetPositive.
+Lemma dedupF_from_eq S L l : (forall x, PositiveSet.In (key x) S <-> In x L) -> dedupF_from S l = dedup_from L l.
+Proof.
+  revert S L. induction l as [|a l IH]; intros S L H; simpl; [reflexivity|].
+  assert (E : PositiveSet.mem (key a) S = memN a L).
+  { destruct (memN a L) eqn:Em.
+    - apply PositiveSet.mem_spec, H, memN_in. exact Em.
+    - destruct (PositiveSet.mem (key a) S) eqn:Es; [|reflexivity].
+      apply PositiveSet.mem_spec, H, memN_in in Es. congruence. }
+  rewrite E. destruct (memN a L); [now apply IH|]. f_equal. apply IH.
+  intros x. rewrite PositiveSet.add_spec. simpl. rewrite <- H. split.
+  - intros [Hk|Hs]; [left; symmetry; now apply key_inj|now right].
+  - intros [->|Hs]; [now left|now right].
+Qed.
+
+Lemma dedupF_eq l : dedupF l = dedup l.
+Proof.
+  apply dedupF_from_eq. intros x. simpl. split; [intros H; now apply PositiveSet.empty_spec in H|intros []].
+Qed.
